@@ -59,11 +59,16 @@ struct Start {
     attrs: bool,
     /// bytes in front of the archive header (an archive embedded behind other data: archive_offset > 0)
     prefix: usize,
+    /// where the block table stands (V1/V2; the header carries both table positions): 0 as the builder writes it (directly behind
+    /// the hash table), 1 moved to the end of the file behind a gap, 2 in front of the hash table
+    reloc: u8,
 }
 
 impl Start {
     fn class(&self) -> String {
-        if self.prefix > 0 {
+        if self.reloc > 0 {
+            format!("v{}|l{}|a{}|r{}", self.version, self.listfile as u8, self.attrs as u8, self.reloc)
+        } else if self.prefix > 0 {
             format!("v{}|l{}|a{}|p{:x}", self.version, self.listfile as u8, self.attrs as u8, self.prefix)
         } else {
             format!("v{}|l{}|a{}", self.version, self.listfile as u8, self.attrs as u8)
@@ -112,6 +117,40 @@ fn build_start(st: &Start, path: &Path) -> Result<BTreeMap<String, Vec<u8>>, Str
         model.insert(norm(n), d);
     }
     b.build(path).map_err(|e| e.to_string())?;
+    if st.reloc > 0 && st.version <= 2 {
+        let mut arc = std::fs::read(path).map_err(|e| e.to_string())?;
+        let rd = |a: &[u8], o: usize| u32::from_le_bytes([a[o], a[o + 1], a[o + 2], a[o + 3]]) as usize;
+        let (hpos, bpos, hn, bn) = (rd(&arc, 0x10), rd(&arc, 0x14), rd(&arc, 0x18), rd(&arc, 0x1C));
+        let (hlen, blen) = (hn * 16, bn * 16);
+        if bpos != hpos + hlen || bpos + blen > arc.len() {
+            return Err(format!("builder layout is not hash table + block table back to back (hash {hpos}+{hlen}, block {bpos}+{blen}, file {})", arc.len()));
+        }
+        let btab = arc[bpos..bpos + blen].to_vec();
+        let htab = arc[hpos..hpos + hlen].to_vec();
+        if st.reloc == 1 {
+            let gap: Vec<u8> = (0..64usize).map(|i| 0xC0 | (i as u8 & 0x0F)).collect();
+            arc.extend_from_slice(&gap);
+            let nb = arc.len();
+            arc.extend_from_slice(&btab);
+            let total = arc.len() as u32;
+            arc[0x14..0x18].copy_from_slice(&(nb as u32).to_le_bytes());
+            arc[0x08..0x0C].copy_from_slice(&total.to_le_bytes());
+        } else {
+            arc[hpos..hpos + blen].copy_from_slice(&btab);
+            arc[hpos + blen..hpos + blen + hlen].copy_from_slice(&htab);
+            arc[0x14..0x18].copy_from_slice(&(hpos as u32).to_le_bytes());
+            arc[0x10..0x14].copy_from_slice(&((hpos + blen) as u32).to_le_bytes());
+        }
+        std::fs::write(path, &arc).map_err(|e| e.to_string())?;
+        // the relocated archive must read like the builder's own (otherwise the start state is not what the model says)
+        let mut a = Archive::open(path).map_err(|e| format!("relocated start archive does not open: {e}"))?;
+        for (n, d) in &model {
+            let got = a.read_file(n).map_err(|e| format!("relocated start archive: {n}: {e}"))?;
+            if &got != d {
+                return Err(format!("relocated start archive: {n} reads differently"));
+            }
+        }
+    }
     if st.prefix > 0 {
         let arc = std::fs::read(path).map_err(|e| e.to_string())?;
         let mut out: Vec<u8> = (0..st.prefix).map(|i| 0x20 + (i % 89) as u8).collect();
@@ -296,7 +335,13 @@ fn measure_slack(path: &Path) -> usize {
     match trap(|| Archive::open(path)).unwrap_or_else(|_| Err(wow_mpq::Error::invalid_format("panic"))) {
         Ok(a) => {
             let h = a.header();
-            let end = (a.archive_offset() + h.get_block_table_pos() + h.block_table_size as u64 * 16).max(a.archive_offset() + h.get_hash_table_pos() + h.hash_table_size as u64 * 16);
+            let bend = a.archive_offset() + h.get_block_table_pos() + h.block_table_size as u64 * 16;
+            let hpos = a.archive_offset() + h.get_hash_table_pos();
+            if hpos >= bend {
+                // the hash table stands behind the block table: that is what the growing block table runs into first
+                return (hpos - bend) as usize;
+            }
+            let end = bend.max(hpos + h.hash_table_size as u64 * 16);
             ((512 - (end % 512)) % 512) as usize
         }
         Err(_) => 0,
@@ -567,7 +612,7 @@ fn main() {
         for version in 1..=4u8 {
             for listfile in [true, false] {
                 for attrs in [false, true] {
-                    v.push(Start { version, listfile, attrs, prefix: 0 });
+                    v.push(Start { version, listfile, attrs, prefix: 0, reloc: 0 });
                 }
             }
         }
@@ -591,8 +636,24 @@ fn main() {
             let _ = ai;
         }
     }
+    // the same single operations on archives whose block table does not stand directly behind the hash table
+    for version in [1u8, 2] {
+        for reloc in [1u8, 2] {
+            let st = Start { version, listfile: true, attrs: reloc == 2 && version == 2, prefix: 0, reloc };
+            for a in alpha.iter() {
+                let i = idx;
+                idx += 1;
+                if !run.want(i) {
+                    continue;
+                }
+                let ops = vec![a.clone(), Op::Reopen, a.clone()];
+                let desc = json!({"start": st.class(), "history": ops.iter().map(|o| op_json(o, &ex_names)).collect::<Vec<_>>()});
+                run.case(i, &format!("len1-relocated|{}|{}", st.class(), op_kind(a)), desc, |c| run_history(c, &st, &ops, &ex_names, &dir, i));
+            }
+        }
+    }
     // length-2 histories: quick on V1 and V4 (listfile, no attrs); thorough on all four versions, + length 3 sampled
-    let l2_starts: Vec<Start> = if thorough { (1..=4).map(|v| Start { version: v, listfile: true, attrs: false, prefix: 0 }).chain([Start { version: 1, listfile: false, attrs: true, prefix: 0 }, Start { version: 4, listfile: true, attrs: true, prefix: 0 }]).collect() } else { vec![Start { version: 1, listfile: true, attrs: false, prefix: 0 }, Start { version: 4, listfile: true, attrs: false, prefix: 0 }] };
+    let l2_starts: Vec<Start> = if thorough { (1..=4).map(|v| Start { version: v, listfile: true, attrs: false, prefix: 0, reloc: 0 }).chain([Start { version: 1, listfile: false, attrs: true, prefix: 0, reloc: 0 }, Start { version: 4, listfile: true, attrs: true, prefix: 0, reloc: 0 }]).collect() } else { vec![Start { version: 1, listfile: true, attrs: false, prefix: 0, reloc: 0 }, Start { version: 4, listfile: true, attrs: false, prefix: 0, reloc: 0 }] };
     for st in &l2_starts {
         for a in &alpha {
             for b in &alpha {
@@ -635,7 +696,7 @@ fn main() {
                     if !run.want(i) {
                         continue;
                     }
-                    let st = Start { version, listfile: true, attrs: false, prefix };
+                    let st = Start { version, listfile: true, attrs: false, prefix, reloc: 0 };
                     let mut ops = vec![];
                     for (n, sz) in sizes.iter().enumerate() {
                         ops.push(Op::Add { name: n, size: *sz, opt, replace: true });
@@ -667,8 +728,12 @@ fn main() {
         let st0 = &starts[rng.usize(starts.len())];
         // every fourth history works on an archive that sits behind a prefix (V1/V2: the classic-table writer)
         let st_pref;
-        let st = if k % 4 == 3 {
-            st_pref = Start { version: 1 + (k / 4 % 2) as u8, listfile: st0.listfile, attrs: st0.attrs, prefix: [0x200usize, 0x400, 0x1000][(k / 8 % 3) as usize] };
+        let st_rel;
+        let st = if k % 8 == 5 {
+            st_rel = Start { version: 1 + (k / 8 % 2) as u8, listfile: st0.listfile, attrs: st0.attrs, prefix: 0, reloc: 1 + (k / 16 % 2) as u8 };
+            &st_rel
+        } else if k % 4 == 3 {
+            st_pref = Start { version: 1 + (k / 4 % 2) as u8, listfile: st0.listfile, attrs: st0.attrs, prefix: [0x200usize, 0x400, 0x1000][(k / 8 % 3) as usize], reloc: 0 };
             &st_pref
         } else {
             st0
